@@ -46,7 +46,8 @@ func (ns *Names) special(t *rapid.T, label string) string {
 		pool = oneLetterVarNames
 	}
 	w := rapid.SampledFrom(pool).Draw(t, label+"SpecialName")
-	if ns.used[w] {
+	if ns.used[w] || (ns.Called && w == "yield") {
+		// an unqualified call `yield(x);` is a yield statement for the shipped grammar (and an error for javac)
 		return ""
 	}
 	ns.used[w] = true
